@@ -458,12 +458,18 @@ def run_behaviour(env, spec, script=None):
         lines.append(("reset", None, cur, None, 0, 0))
         nsteps = spec["nsteps"] if script is None else len(script)
         si = 0
-        while si < nsteps:
-            if script is not None:
-                st = script[si]
+        queued = None
+        while si < nsteps or queued:
+            if queued:
+                st, queued = queued, None
+            elif script is not None:
+                st = script[si]; si += 1
             else:
-                st = plan_step(gen, cur, front, ftflag, K, rng, last=(si == nsteps - 1))
-            si += 1
+                st = plan_step(gen, cur, front, ftflag, K, rng, last=(si == nsteps - 1)); si += 1
+                if st["kind"] == "fsckD":
+                    # a generated e2fsck -fyD is preceded by e2fsck -fn as a step of its own (the model must agree with its verdict)
+                    # and issued only when that found the filesystem clean: repairs of e2fsck -fy are not modelled
+                    st, queued = {"kind": "fsckn", "ops": [], "then": "fsckD"}, st
             kind, ops = st["kind"], st["ops"]
             rc = 0
             prev = cur
@@ -489,6 +495,9 @@ def run_behaviour(env, spec, script=None):
                     crash = "debugfs exited %d on %s: %s" % (rc2, ops, e.decode("utf8", "replace")[-300:])
                     steps.append(st); break
                 cur = Obs(dump(env, img), csum)
+            if st.get("then") and rc != 0:
+                queued = None
+            st = {"kind": st["kind"], "ops": st["ops"]}
             steps.append(st)
             lines.append((kind, prev, cur, [parse_op(x) for x in ops], 1 if front == "dbg" else 0, rc))
     except RuntimeError as ex:
@@ -943,7 +952,9 @@ def run(tier):
         if not vd.viol and want - seen:
             die_broken("boundary catalogue elements not reached by the behaviours built for them: %s" % sorted(want - seen)[:6])
         ev.cov["rule"] = ("histories of namespace operations chosen (seeded) from the observed state, run through libext2fs (harness/dirdrv.c) and debugfs -w -f "
-                          "on 6 feature profiles x {1k,4k}, interleaved with e2fsck -fyD, ending in e2fsck -fn; non-trivial = >= 1 removal that coalesces/clears "
+                          "on 6 feature profiles x {1k,4k}, interleaved with e2fsck -fyD, ending in e2fsck -fn; plus the scripted behaviours of the boundary catalogue "
+                          "(HTree!Catalogue via Emit_HTreeCat: growth across / first indexing at every catalogued leaf count the tier can build, see boundary_catalogue) and of the "
+                          "refusal catalogue (request kind x kind of the existing object); non-trivial = >= 1 removal that coalesces/clears "
                           "a directory slot and >= 1 removal that frees an inode; distinct by operation sequence")
         if behs:
             ev.sample({"spec": behs[0]["spec"], "steps": behs[0]["steps"][:8]})
@@ -962,6 +973,10 @@ ASSUMPTIONS = [
     "observation goes through libext2fs readers (harness/dirdrv.c dump: ext2fs_dir_iterate2, ext2fs_lookup, raw block parse); the consistency oracle is e2fsck -fn",
     "e2fsck -fyD is issued only on states the model calls consistent (its repairs of inconsistent states are not modelled)",
     "no quota, no journal, no ea_inode, no casefold, no large_dir; names are ASCII",
+    "e2fsck runs with an empty e2fsck.conf (indexed_dir_slack_percentage = 20, the default HTree!SlackPct states)",
+    "directories of the boundary catalogue larger than a 1 KiB-block htree (and every directory that is indexed for the first time at a catalogued size) are built through the library "
+    "before the first observation; TLC checks that this observation is consistent and lists exactly the intended names, the build-up itself is validated operation by operation only at 1 KiB",
+    "a refused mkdir / symlink / write names an existing entry of an in-use directory; mknod and ln of an existing name are not issued (debugfs does not refuse them)",
 ]
 
 
@@ -971,7 +986,6 @@ def report(vd, bh, lines, matched, inv, tail):
     opn = "+".join(sorted({o["op"] for o in ln.get("ops", [])})) or ln["e"]
     what = ("invariant %s violated" % inv) if inv else "trace rejected"
     key = "%s@%s" % (what, opn)
-    # the known debugfs defect: releasing an inode that owns an xattr block
     vd.violation(key, "%s at line %d (%s, front end %s, profile %s/%d): %s" % (what, k, opn, bh["spec"]["front"], bh["spec"]["prof"], bh["spec"]["bs"],
                                                                             json.dumps(ln.get("ops", []))[:200]),
                  {"spec": bh["spec"], "steps": bh["steps"], "first_unmatched_line": k, "tlc_tail": tail[-1200:]})
